@@ -229,7 +229,8 @@ UNBOUNDED_OK = {"swap_mutex_fair", "swap_mutex_unfair", "swap_sem_fair", "swap_s
                 "timer_check_vs_first_poll", "oneshot_two_sends_by_ref", "event_many_set_vs_reset", "timer_many_vs_abandon", "mutex_requeue_vs_unlock",
                 "mpmc_close_vs_first_send_poll_cap0", "mpmc_close_vs_first_send_poll_cap1",
                 "timer_expire_vs_drop", "event_set_vs_drop", "sem_release_vs_drop", "mutex_unlock_vs_drop", "mpmc_send_vs_drop_recv",
-                "event_set_vs_first_poll", "mutex_fair_newcomer", "mutex_is_locked_contended", "mpmc_debug_vs_push_exclusive"}
+                "event_set_vs_first_poll", "mutex_fair_newcomer", "mutex_is_locked_contended", "mpmc_debug_vs_push_exclusive",
+                "mpmc_barger_vs_notified"}
 BIG = {"mpmc_2p1c_cap0", "mpmc_2p1c_cap1", "mpmc_2p1c_cap0_seq", "mutex_cancel_in_queue_fair", "mutex_cancel_in_queue_unfair", "state_followers"}
 
 
